@@ -64,17 +64,34 @@ def inStop : Pc → Bool
 def confInv (s : St) : Pc → Prop
   | .c2 k =>
       (s.queue.count .confirm = 1 ∧ s.event = false ∧ s.w ≠ .confirming ∧
-        s.sink.length + (heldOf s.w).length + cntBefore .confirm s.queue = k) ∨
-      (s.queue.count .confirm = 0 ∧ s.event = false ∧ s.w = .confirming ∧ s.sink.length = k) ∨
-      (s.queue.count .confirm = 0 ∧ s.event = true ∧ s.w ≠ .confirming ∧ k ≤ s.sink.length)
-  | .c3 k => s.queue.count .confirm = 0 ∧ s.event = true ∧ s.w ≠ .confirming ∧ k ≤ s.sink.length
-  | .c4 k => s.queue.count .confirm = 0 ∧ s.event = false ∧ s.w ≠ .confirming ∧ k ≤ s.sink.length
+        s.handled.length + (heldOf s.w).length + cntBefore .confirm s.queue = k) ∨
+      (s.queue.count .confirm = 0 ∧ s.event = false ∧ s.w = .confirming ∧ s.handled.length = k) ∨
+      (s.queue.count .confirm = 0 ∧ s.event = true ∧ s.w ≠ .confirming ∧ k ≤ s.handled.length)
+  | .c3 k => s.queue.count .confirm = 0 ∧ s.event = true ∧ s.w ≠ .confirming ∧ k ≤ s.handled.length
+  | .c4 k => s.queue.count .confirm = 0 ∧ s.event = false ∧ s.w ≠ .confirming ∧ k ≤ s.handled.length
   | _ => s.queue.count .confirm = 0 ∧ s.event = false ∧ s.w ≠ .confirming
 
 /-- FIFO, exactly once, whole: written ++ in-flight ++ queued = everything ever put, in put order -/
-def Fifo (s : St) : Prop := s.sink ++ heldOf s.w ++ msgsOf s.queue = s.putLog
+def Fifo (s : St) : Prop := hmsgs s.handled ++ heldOf s.w ++ msgsOf s.queue = s.putLog
 
-theorem fifo_init : Fifo ({} : St) := by simp [Fifo, heldOf, msgsOf]
+theorem fifo_init : Fifo ({} : St) := by simp [Fifo, heldOf, msgsOf, hmsgs]
+
+/-- the sink holds exactly the messages whose `sink.write` returned, in the order the worker handled them -/
+def Wr (s : St) : Prop := s.sink = writtenOf s.handled
+
+theorem wr_init : Wr ({} : St) := by simp [Wr, writtenOf]
+
+theorem writtenOf_append (a b : List ((Tid × Nat) × Outcome)) : writtenOf (a ++ b) = writtenOf a ++ writtenOf b := by
+  induction a with
+  | nil => rfl
+  | cons x r ih =>
+    obtain ⟨e, o⟩ := x
+    cases o <;> simp [writtenOf, ih]
+
+theorem hmsgs_append (a b : List ((Tid × Nat) × Outcome)) : hmsgs (a ++ b) = hmsgs a ++ hmsgs b := by
+  simp [hmsgs]
+
+@[simp] theorem hmsgs_length (a : List ((Tid × Nat) × Outcome)) : (hmsgs a).length = a.length := by simp [hmsgs]
 
 macro "w_arms" hs:ident : tactic => `(tactic| (
   unfold stepW at $hs:ident
@@ -90,12 +107,94 @@ macro "p_arms" hs:ident : tactic => `(tactic| (
 
 theorem fifo_stepW {s s' : St} {lab : Lab} (h : Fifo s) (hs : stepW s lab = some s') : Fifo s' := by
   unfold Fifo at *
-  w_arms hs <;> simp_all [heldOf, msgsOf] <;> (try (rw [← h]; simp [msgsOf]))
+  w_arms hs <;> simp_all [heldOf, msgsOf, hmsgs] <;> (try (rw [← h]; simp [msgsOf]))
 
 theorem fifo_stepP {proc : Tid → Pid} {s s' : St} {t : Tid} {lab : Lab} (h : Fifo s)
     (hs : stepP proc s t lab = some s') : Fifo s' := by
   unfold Fifo at *
-  p_arms hs <;> simp_all [setPc, heldOf, msgsOf, msgsOf_append] <;> (try (rw [← h]; simp [msgsOf]))
+  p_arms hs <;> simp_all [setPc, heldOf, msgsOf, msgsOf_append, hmsgs] <;> (try (rw [← h]; simp [msgsOf]))
+
+theorem wr_stepW {s s' : St} {lab : Lab} (h : Wr s) (hs : stepW s lab = some s') : Wr s' := by
+  unfold Wr at *
+  w_arms hs <;> simp_all [writtenOf_append, writtenOf]
+
+theorem wr_stepP {proc : Tid → Pid} {s s' : St} {t : Tid} {lab : Lab} (h : Wr s)
+    (hs : stepP proc s t lab = some s') : Wr s' := by
+  unfold Wr at *
+  p_arms hs <;> simp_all [setPc]
+
+theorem wr_step {proc : Tid → Pid} {s s' : St} {t : Tid} {lab : Lab} (h : Wr s)
+    (hs : step proc s t lab = some s') : Wr s' := by
+  unfold step at hs
+  split at hs
+  · exact wr_stepW h hs
+  · exact wr_stepP h hs
+
+/-- the labels on which the worker meets an error that costs a message -/
+def isErr : Lab → Bool
+  | .getFail _ | .writeFail => true
+  | _ => false
+
+/-- everything handled so far has been written -/
+def AllW (s : St) : Prop := ∀ x ∈ s.handled, x.2 = .written
+
+theorem allw_init : AllW ({} : St) := by simp [AllW]
+
+theorem writtenOf_allw (h : List ((Tid × Nat) × Outcome)) (ha : ∀ x ∈ h, x.2 = .written) : writtenOf h = hmsgs h := by
+  induction h with
+  | nil => rfl
+  | cons x r ih =>
+    obtain ⟨e, o⟩ := x
+    have ho : o = .written := ha (e, o) List.mem_cons_self
+    subst ho
+    simp only [writtenOf, hmsgs, List.map_cons]
+    rw [ih (fun y hy => ha y (List.mem_cons_of_mem _ hy))]
+    rfl
+
+theorem writtenOf_sublist (h : List ((Tid × Nat) × Outcome)) : (writtenOf h).Sublist (hmsgs h) := by
+  induction h with
+  | nil => exact List.Sublist.slnil
+  | cons x r ih =>
+    obtain ⟨e, o⟩ := x
+    cases o
+    · exact List.Sublist.cons_cons _ ih
+    · exact List.Sublist.cons _ ih
+    · exact List.Sublist.cons _ ih
+
+theorem mem_hmsgs_cases (h : List ((Tid × Nat) × Outcome)) (e : Tid × Nat) (he : e ∈ hmsgs h) :
+    e ∈ writtenOf h ∨ ∃ o, o ≠ .written ∧ (e, o) ∈ h := by
+  induction h with
+  | nil => simp [hmsgs] at he
+  | cons x r ih =>
+    obtain ⟨e', o⟩ := x
+    simp only [hmsgs, List.map_cons, List.mem_cons] at he
+    rcases he with rfl | he
+    · cases o
+      · left; simp [writtenOf]
+      · right; exact ⟨.refused, by simp, List.mem_cons_self⟩
+      · right; exact ⟨.unreadable, by simp, List.mem_cons_self⟩
+    · rcases ih he with h1 | ⟨o', ho, hm⟩
+      · left
+        cases o <;> simp [writtenOf, h1]
+      · right; exact ⟨o', ho, List.mem_cons_of_mem _ hm⟩
+
+theorem allw_stepW {s s' : St} {lab : Lab} (hx : isErr lab = false) (h : AllW s) (hs : stepW s lab = some s') :
+    AllW s' := by
+  unfold AllW at *
+  w_arms hs <;> simp_all [isErr] <;> grind
+
+theorem allw_stepP {proc : Tid → Pid} {s s' : St} {t : Tid} {lab : Lab} (h : AllW s)
+    (hs : stepP proc s t lab = some s') : AllW s' := by
+  have e : s'.handled = s.handled := by p_arms hs <;> rfl
+  unfold AllW at *
+  rw [e]; exact h
+
+theorem allw_step {proc : Tid → Pid} {s s' : St} {t : Tid} {lab : Lab} (hx : isErr lab = false) (h : AllW s)
+    (hs : step proc s t lab = some s') : AllW s' := by
+  unfold step at hs
+  split at hs
+  · exact allw_stepW hx h hs
+  · exact allw_stepP h hs
 
 theorem fifo_step {proc : Tid → Pid} {s s' : St} {t : Tid} {lab : Lab} (h : Fifo s)
     (hs : step proc s t lab = some s') : Fifo s' := by
@@ -110,7 +209,7 @@ structure Conf (s : St) : Prop where
   k2 : ∀ t, s.confLock = some t → t ≠ workerTid ∧ holdsConf (s.pc t) = true
   cf1 : ∀ t, t ≠ workerTid → holdsConf (s.pc t) = true → confInv s (s.pc t)
   cf2 : s.confLock = none → s.queue.count .confirm = 0 ∧ s.event = false ∧ s.w ≠ .confirming
-  cf3 : ∀ t k, (t, k) ∈ s.completed → k ≤ s.sink.length
+  cf3 : ∀ t k, (t, k) ∈ s.completed → k ≤ s.handled.length
 
 theorem conf_init : Conf ({} : St) := by
   constructor <;> simp [holdsConf]
@@ -130,14 +229,17 @@ theorem conf_stepW {s s' : St} {lab : Lab} (h : Conf s) (hs : stepW s lab = some
     (refine ⟨k1, k2, ?_, ?_, ?_⟩
      · intro u hu hc
        have old2 := cf1 u hu hc
+       clear k1 k2 cf1 cf2 cf3
        cases hp : s.pc u <;> rw [hp] at hc old2 <;>
          simp_all [holdsConf, confInv, heldOf, cntBefore, List.count_cons] <;>
          (try omega) <;> (try grind)
      · intro hn
        have old := cf2 hn
+       clear k1 k2 cf1 cf2 cf3
        simp_all [List.count_cons]
      · intro u k hk
        have := cf3 u k hk
+       clear k1 k2 cf1 cf2 cf3
        simp_all <;> omega)
 
 macro "conf_simp" : tactic => `(tactic| (
@@ -173,7 +275,7 @@ theorem conf_cf2P {proc : Tid → Pid} {s s' : St} {t : Tid} {lab : Lab} (h : Co
 
 theorem conf_cf3P {proc : Tid → Pid} {s s' : St} {t : Tid} {lab : Lab} (h : Conf s) (ht : t ≠ workerTid)
     (hs : stepP proc s t lab = some s') :
-    ∀ u k, (u, k) ∈ s'.completed → k ≤ s'.sink.length := by
+    ∀ u k, (u, k) ∈ s'.completed → k ≤ s'.handled.length := by
   obtain ⟨k1, k2, cf1, cf2, cf3⟩ := h
   p_arms hs <;> conf_simp <;> (try grind)
 
@@ -183,6 +285,9 @@ theorem conf_cf1P_self {proc : Tid → Pid} {s s' : St} {t : Tid} {lab : Lab} (h
     holdsConf (s'.pc t) = true → confInv s' (s'.pc t) := by
   obtain ⟨k1, k2, cf1, cf2, cf3⟩ := h
   unfold Fifo at hf
+  have hlen : s.handled.length + (heldOf s.w).length + (msgsOf s.queue).length = s.putLog.length := by
+    rw [← hf]; simp [List.length_append]; omega
+  clear hf
   have old := cf1 t ht
   have oldk := k2 t
   p_arms hs <;>
@@ -194,7 +299,7 @@ theorem conf_cf1P_self {proc : Tid → Pid} {s s' : St} {t : Tid} {lab : Lab} (h
      all_goals (try grind))
 
 theorem confInv_congr {s s' : St} (q : Pc) (h1 : s'.queue = s.queue) (h2 : s'.event = s.event)
-    (h3 : s'.w = s.w) (h4 : s'.sink = s.sink) : confInv s' q ↔ confInv s q := by
+    (h3 : s'.w = s.w) (h4 : s'.handled = s.handled) : confInv s' q ↔ confInv s q := by
   cases q <;> simp [confInv, h1, h2, h3, h4]
 
 /-- the other threads' stages are stable under a producer step -/
